@@ -44,8 +44,7 @@ PROPERTIES = ['JoinGateM', 'FinishedFrozenM', 'ResultOnceM', 'SuccessStickyM', '
 
 def model_check(d, name, prog, liveness=False, timeout=1800, confluence=False, ops=0, dups=0, workers=None,
                 kinds=('pause', 'resume', 'stop')):
-    for f in ('MistralEngine.tla',):
-        shutil.copy(os.path.join(common.SPEC, 'engine', f), d)
+    common.put_spec(d, *[os.path.join('engine', f_) for f_ in ('MistralEngine.tla',)])
     mc = 'MC_Engine_' + re.sub(r'\W', '_', name)
     with open(os.path.join(d, mc + '.tla'), 'w') as fh:
         fh.write('---- MODULE %s ----\nEXTENDS MistralEngine\nDConst == %s\nMCInit == D = DConst /\\ Init /\\ TLCSet(1, <<>>)\n'
@@ -64,8 +63,7 @@ def model_check(d, name, prog, liveness=False, timeout=1800, confluence=False, o
 
 def strict_validate(d, traces, tag='strict', chunk=200, dump=False):
     """Returns (accepted set of indexes into traces, reached dict, states, transitions)."""
-    for f in ('MistralEngine.tla', 'EngineTrace.tla'):
-        shutil.copy(os.path.join(common.SPEC, 'engine', f), d)
+    common.put_spec(d, *[os.path.join('engine', f_) for f_ in ('MistralEngine.tla', 'EngineTrace.tla')])
     acc, reached = set(), {}
     st = tr = 0
     import concurrent.futures as cf
